@@ -62,8 +62,12 @@ def run_one(args):
         for p in props:
             r = subprocess.run([os.path.join(VERIF, "check"), p], env=env, capture_output=True, text=True)
             v = [l for l in r.stdout.splitlines() if l.startswith("  key") or l.startswith("  engine")]
+            if r.returncode != 0 and "VIOLATION property=" not in r.stdout:
+                v = []
+                res[p] = (r.returncode, ["CHECK CRASHED: " + (r.stderr or r.stdout)[-200:]])
+                continue
             res[p] = (r.returncode, v)
-        fired = [p for p, (rc, v) in res.items() if rc != 0]
+        fired = [p for p, (rc, v) in res.items() if rc != 0 and v and not v[0].startswith("CHECK CRASHED")]
         detail = "; ".join("%s:%s" % (p, " ".join(x.strip() for x in v[:2])[:230]) for p, (rc, v) in res.items() if rc != 0)
         return m["name"], "caught" if fired else "MISSED", detail
     finally:
